@@ -319,8 +319,13 @@ def view(xml_bytes, root=None):
                     break
             refs = set()
             _typerefs(k, refs)
+            shape = None
+            ps = k.find('parameters')
+            if k.tag in FN_TAGS or k.tag in ('virtual-method', 'callback', 'glib:signal'):
+                shape = (ps is not None and ps.find('instance-parameter') is not None,
+                         len(ps.findall('parameter')) if ps is not None else 0)
             r = {'tag': k.tag, 'owner': owner, 'attrs': dict(k.attrib), 'info': info,
-                 'sig': repr(_sigdump(k)), 'typename': tn, 'refs': refs}
+                 'sig': repr(_sigdump(k)), 'typename': tn, 'refs': refs, 'shape': shape}
             out.setdefault(kid_id, []).append(r)
             # path of nested identified elements: functions are identified by symbol, so their
             # own children (none are identified) do not need a path
@@ -329,7 +334,7 @@ def view(xml_bytes, root=None):
     # namespace-level attributes and the repository prologue take part in the frame as one pseudo element
     pro = [[k.tag, sorted(k.attrib.items())] for k in root.kids if k.tag != 'namespace']
     out['#namespace'] = [{'tag': 'namespace', 'owner': '', 'attrs': dict(ns.attrib), 'info': {},
-                          'sig': repr(pro), 'typename': None, 'refs': set()}]
+                          'sig': repr(pro), 'typename': None, 'refs': set(), 'shape': None}]
     return out
 
 
@@ -339,7 +344,7 @@ def fields(records):
     recs = sorted(records, key=lambda r: (r['owner'], r['tag']))
     per = []
     for r in recs:
-        f = {'tag': r['tag'], 'owner': r['owner'], 'sig': r['sig'], 'typename': r['typename']}
+        f = {'tag': r['tag'], 'owner': r['owner'], 'sig': r['sig'], 'typename': r['typename'], 'shape': r.get('shape')}
         for a, v in r['attrs'].items():
             f['@' + a] = v
         f.update(r['info'])
@@ -381,12 +386,18 @@ def baseline():
         v = view(r.xml)
         _BASE['b'] = (r.xml, v, girread.flat(girread.parse(r.xml)))
         _BASE['f'] = all_fields(v)
+        _BASE['w'] = set(w['text'] for w in r.warnings())
     return _BASE['b']
 
 
 def baseline_fields():
     baseline()
     return _BASE['f']
+
+
+def baseline_warnings():
+    baseline()
+    return _BASE['w']
 
 
 def scan(comments):
